@@ -85,7 +85,86 @@ static void op_eapol(int nt, char **t) {
     if (ledger_live()) printf(" LEAK(%d)", ledger_live());
 }
 
+static void pr_suite(const struct libwifi_cipher_suite *c) { out_hex(c->oui, 3); printf(":%u", c->suite_type); }
+static void print_bss(const struct libwifi_bss *b) {
+    out_hex(b->transmitter, 6); putchar(','); out_hex(b->receiver, 6); putchar(','); out_hex(b->bssid, 6); putchar(',');
+    out_hex((const unsigned char *) b->ssid, 33);
+    printf(",h%d,c%u,w%u,e%llu,s%d,wpa{%u,", b->hidden, b->channel, b->wps, (unsigned long long) b->encryption_info, b->signal, b->wpa_info.wpa_version);
+    pr_suite(&b->wpa_info.multicast_cipher_suite);
+    printf(",%u[", b->wpa_info.num_unicast_cipher_suites);
+    for (int i = 0; i < LIBWIFI_MAX_CIPHER_SUITES; i++) { pr_suite(&b->wpa_info.unicast_cipher_suites[i]); putchar(' '); }
+    printf("],%u[", b->wpa_info.num_auth_key_mgmt_suites);
+    for (int i = 0; i < LIBWIFI_MAX_CIPHER_SUITES; i++) { pr_suite(&b->wpa_info.auth_key_mgmt_suites[i]); putchar(' '); }
+    printf("]},rsn{%u,", b->rsn_info.rsn_version);
+    pr_suite(&b->rsn_info.group_cipher_suite);
+    printf(",%d[", b->rsn_info.num_pairwise_cipher_suites);
+    for (int i = 0; i < LIBWIFI_MAX_CIPHER_SUITES; i++) { pr_suite(&b->rsn_info.pairwise_cipher_suites[i]); putchar(' '); }
+    printf("],%d[", b->rsn_info.num_auth_key_mgmt_suites);
+    for (int i = 0; i < LIBWIFI_MAX_CIPHER_SUITES; i++) { pr_suite(&b->rsn_info.auth_key_mgmt_suites[i]); putchar(' '); }
+    printf("],%u},t%zu:", b->rsn_info.rsn_capabilities, b->tags.length);
+    if (b->tags.length) out_hex(b->tags.parameters, b->tags.length); else putchar('-');
+}
+static void print_sta(const struct libwifi_sta *s) {
+    printf("c%u,r%u,", s->channel, s->randomized);
+    out_hex(s->transmitter, 6); putchar(','); out_hex(s->receiver, 6); putchar(','); out_hex(s->bssid, 6); putchar(',');
+    out_hex((const unsigned char *) s->ssid, 33);
+    printf(",b%u,t%zu:", s->broadcast_ssid, s->tags.length);
+    if (s->tags.length) out_hex(s->tags.parameters, s->tags.length); else putchar('-');
+}
+
+/* mgmt <radiotap 0|1> <hex>: classify, then all nine management parsers on the classified frame */
+static void op_mgmt(int nt, char **t) {
+    (void) nt;
+    int rt = (int) tok_ll(t[1]);
+    size_t n; unsigned char *b = hexbuf(t[2], &n);
+    struct libwifi_frame f; memset(&f, 0x5A, sizeof f);
+    int r;
+    LIB(r = libwifi_get_wifi_frame(&f, b, n, rt));
+    memset(b, 0xEE, n); __real_free(b);
+    if (r != 0) { printf("mgmt cls=err"); LIB(libwifi_free_wifi_frame(&f)); return; }
+    printf("mgmt");
+    typedef int (*bssp)(struct libwifi_bss *, struct libwifi_frame *);
+    typedef int (*stap)(struct libwifi_sta *, struct libwifi_frame *);
+    static const struct { const char *nm; bssp fn; } BP[] = { {"beacon", libwifi_parse_beacon}, {"probe_resp", libwifi_parse_probe_resp},
+        {"assoc_resp", libwifi_parse_assoc_resp}, {"reassoc_resp", libwifi_parse_reassoc_resp} };
+    static const struct { const char *nm; stap fn; } SP[] = { {"probe_req", libwifi_parse_probe_req}, {"assoc_req", libwifi_parse_assoc_req},
+        {"reassoc_req", libwifi_parse_reassoc_req} };
+    for (int i = 0; i < 4; i++) {
+        struct libwifi_bss bss; memset(&bss, 0x5A, sizeof bss);
+        int pr; LIB(pr = BP[i].fn(&bss, &f));
+        printf(" %s=", BP[i].nm);
+        if (pr != 0) printf("err"); else print_bss(&bss);
+        LIB(libwifi_free_bss(&bss));
+    }
+    for (int i = 0; i < 3; i++) {
+        struct libwifi_sta sta; memset(&sta, 0x5A, sizeof sta);
+        int pr; LIB(pr = SP[i].fn(&sta, &f));
+        printf(" %s=", SP[i].nm);
+        if (pr != 0) printf("err"); else print_sta(&sta);
+        LIB(libwifi_free_sta(&sta));
+    }
+    {
+        struct libwifi_parsed_deauth d; memset(&d, 0x5A, sizeof d);
+        int pr; LIB(pr = libwifi_parse_deauth(&d, &f));
+        printf(" deauth=");
+        if (pr != 0) printf("err"); else { printf("o%d,", d.ordered); out_hex((unsigned char *) &d.frame_header, d.ordered ? 28 : 24);
+            printf(",r%u,t%zu:", d.fixed_parameters.reason_code, d.tags.length); if (d.tags.length) out_hex(d.tags.parameters, d.tags.length); else putchar('-'); }
+        if (pr == 0 || 1) LIB(free(pr == 0 ? d.tags.parameters : (d.tags.length ? d.tags.parameters : NULL)));   /* no release routine exists (F33) */
+    }
+    {
+        struct libwifi_parsed_disassoc d; memset(&d, 0x5A, sizeof d);
+        int pr; LIB(pr = libwifi_parse_disassoc(&d, &f));
+        printf(" disassoc=");
+        if (pr != 0) printf("err"); else { printf("o%d,", d.ordered); out_hex((unsigned char *) &d.frame_header, d.ordered ? 28 : 24);
+            printf(",r%u,t%zu:", d.fixed_parameters.reason_code, d.tags.length); if (d.tags.length) out_hex(d.tags.parameters, d.tags.length); else putchar('-'); }
+        LIB(free(pr == 0 ? d.tags.parameters : (d.tags.length ? d.tags.parameters : NULL)));
+    }
+    LIB(libwifi_free_wifi_frame(&f));
+    if (ledger_live()) printf(" LEAK(%d)", ledger_live());
+}
+
 const struct op ops_frame[] = {
+    {"mgmt", op_mgmt},
     {"eapol", op_eapol},
     {"classify", op_classify},
     {NULL, NULL},
